@@ -234,7 +234,8 @@ def run(tier, seed):
               "pandora.filter.median.MedianFilter.margins", "pandora.filter.bilateral.BilateralFilter.margins",
               "pandora.filter.median_for_intervals.MedianForIntervalsFilter.margins", "pandora.main"):
         rec.functions.add(f)
-    shapes = [(24, 32), (10, 14)] if tier != "thorough" else [(24, 32), (10, 14), (5, 40)]
+    # (14, 10): fewer columns than rows AND than the bilateral window -- min(rows, cols, ...) must see the columns
+    shapes = [(24, 32), (14, 10)] if tier != "thorough" else [(24, 32), (14, 10), (10, 14), (5, 40)]
     if tier == "smoke":
         shapes = shapes[:1]
     var = variants(tier)
